@@ -512,7 +512,39 @@ impl C18 {
                 }
             }
         }
-        cx.bulk_states(14, 14);
+        // file names: the format is the one asked for, whatever the name of the file looks like
+        const FILE_NAMES: [&str; 10] = ["n.json", "n.yaml", "n.yml", "n.toml", "n.JSON", "n.txt", "n", "n.json.yaml", "n.gds", "n.lef"];
+        let gbase = full_gds();
+        for fnm in FILE_NAMES {
+            for (fname, fmt) in FMTS {
+                cx.stats.executions += 2;
+                cx.stats.evaluations += 2;
+                let f = cx.scratch_file(&format!("c18-{fname}-{fnm}"));
+                let _ = std::fs::remove_file(&f);
+                let rg = guard(|| -> Result<GdsLibrary, String> {
+                    SerdeFile::save(&gbase, &f, fmt).map_err(|e| format!("save: {e}"))?;
+                    <GdsLibrary as SerdeFile>::open(&f, fmt).map_err(|e| format!("open: {e}"))
+                });
+                let _ = std::fs::remove_file(&f);
+                let rl = guard(|| -> Result<LefLibrary, String> {
+                    fmt.save(&lbase, &f).map_err(|e| format!("save: {e}"))?;
+                    fmt.open::<LefLibrary>(&f).map_err(|e| format!("open: {e}"))
+                });
+                let _ = std::fs::remove_file(&f);
+                let key = format!("q:name:{fnm}:{fname}");
+                let outcome: Result<bool, String> = match (rg, rl) {
+                    (Err(p), _) | (_, Err(p)) => Err(p.short()),
+                    (Ok(Err(e)), _) | (_, Ok(Err(e))) => Err(e),
+                    (Ok(Ok(g)), Ok(Ok(l))) => Ok(g == gbase && l == lbase),
+                };
+                match outcome {
+                    Err(e) => cx.fail(&key, "file-name-error", None, || format!("save + open as {fname} through a file named {fnm}: {e}"), || Value::Null),
+                    Ok(false) => cx.fail(&key, "file-name-differs", None, || format!("save + open as {fname} through a file named {fnm}: the copy differs"), || Value::Null),
+                    Ok(true) => cx.outcome("identical"),
+                }
+            }
+        }
+        cx.bulk_states(14 + 2 * FILE_NAMES.len() as u64, 14 + 2 * FILE_NAMES.len() as u64);
     }
 
     fn strings_for(tier: Tier, block: usize, nblocks: usize) -> Vec<String> {
@@ -561,7 +593,7 @@ impl Driver for C18 {
     fn describe(&self, tier: Tier) -> Describe {
         Describe {
             rule: format!(
-                "[doubles] every binary exponent of the GDSII range (-256..=251) x sign x {} fraction patterns at each of {GDS_F64_SITES} f64 sites (UNITS x2, SREF MAG/ANGLE, AREF ANGLE, TEXT MAG) of a GDSII library holding one element of every kind with every optional field; [strings] every string of length <= {} over a 27-character alphabet special to JSON/YAML (quotes, colon, hash, backslash, space, newline, tab, CR, dash, ?, brackets, &, *, !, |, >, %, @, backtick, ~, comma, e-acute, digit, letter, NUL) plus {} whole strings (YAML keywords, numbers, document markers, flow/block indicators, leading/trailing/inner whitespace lines, BOM, NEL, U+2028, NUL, DEL, emoji, combining) at each of {GDS_STRING_SITES} GDSII and {LEF_STRING_SITES} LEF string sites; [decimals] at each of {LEF_DECIMAL_SITES} LEF decimal sites (VERSION, SIZE x / y, ORIGIN, layer WIDTH, RECT and POLYGON coordinates, MANUFACTURINGGRID) every decimal with one of 14 mantissas of 1..29 digits (0, 1, 5, 12345, 2^52+1, 2^53+1, 17/18/20/21 digits, 23 nines, 28 digits, 2^95, 2^96-1) x scale in {{0,1,3,6,12,17,20,28}} x sign; [integers] every integer leaf of the full GDSII library's serde form (coordinates, layers, types, dates, flags, plex, attributes, columns / rows) := each of 16 values (0, +-1, 255, 256, i16 / u16 / i32 limits, 2^24, 2^24+-1, 123456789, 2^30) that fits the field; [save sequences] save(A) then save(B) to the same path then open, for pairs A, B whose markup has the same length / B shorter / B longer (GDSII and LEF, both formats): the copy must be B; [structure] full GDSII / LEF libraries, repository .gds and .lef resources; [markup] repository .gds resources and the full library through to_markup + from_markup on files. All x {{Json, Yaml}} x {{to_string+from_str, save+open}}. A state is (value, site); non-trivial = not the default value. Oracle: value equality, f64 sites by bits, strings by bytes, GDSII bytes identical.",
+                "[doubles] every binary exponent of the GDSII range (-256..=251) x sign x {} fraction patterns at each of {GDS_F64_SITES} f64 sites (UNITS x2, SREF MAG/ANGLE, AREF ANGLE, TEXT MAG) of a GDSII library holding one element of every kind with every optional field; [strings] every string of length <= {} over a 27-character alphabet special to JSON/YAML (quotes, colon, hash, backslash, space, newline, tab, CR, dash, ?, brackets, &, *, !, |, >, %, @, backtick, ~, comma, e-acute, digit, letter, NUL) plus {} whole strings (YAML keywords, numbers, document markers, flow/block indicators, leading/trailing/inner whitespace lines, BOM, NEL, U+2028, NUL, DEL, emoji, combining) at each of {GDS_STRING_SITES} GDSII and {LEF_STRING_SITES} LEF string sites; [decimals] at each of {LEF_DECIMAL_SITES} LEF decimal sites (VERSION, SIZE x / y, ORIGIN, layer WIDTH, RECT and POLYGON coordinates, MANUFACTURINGGRID) every decimal with one of 14 mantissas of 1..29 digits (0, 1, 5, 12345, 2^52+1, 2^53+1, 17/18/20/21 digits, 23 nines, 28 digits, 2^95, 2^96-1) x scale in {{0,1,3,6,12,17,20,28}} x sign; [integers] every integer leaf of the full GDSII library's serde form (coordinates, layers, types, dates, flags, plex, attributes, columns / rows) := each of 16 values (0, +-1, 255, 256, i16 / u16 / i32 limits, 2^24, 2^24+-1, 123456789, 2^30) that fits the field; [save sequences] save(A) then save(B) to the same path then open, for pairs A, B whose markup has the same length / B shorter / B longer (GDSII and LEF, both formats): the copy must be B; save + open through files named n.json / .yaml / .yml / .toml / .JSON / .txt / no extension / .json.yaml / .gds / .lef under either format; [structure] full GDSII / LEF libraries, repository .gds and .lef resources; [markup] repository .gds resources and the full library through to_markup + from_markup on files. All x {{Json, Yaml}} x {{to_string+from_str, save+open}}. A state is (value, site); non-trivial = not the default value. Oracle: value equality, f64 sites by bits, strings by bytes, GDSII bytes identical.",
                 Self::doubles_for(tier, 0).len() / 2,
                 tier.pick(2, 3),
                 whole_strings().len()
@@ -906,7 +938,7 @@ impl CaseDriver for C18Gds {
     }
     fn describe(&self, tier: Tier) -> Describe {
         Describe {
-            rule: format!("GDSII library values from the C01 generator (family single; thorough also pairs: all 7 element kinds, every subset of optional fields, strans variants, properties, witness integers, strings over {{a, B, e-acute, euro, space, NUL}}, reals from the C15 slice), every choice sequence with <= {} value deviations, x {{Json, Yaml}} x {{to_string+from_str, save+open}}. State = one library value.", self.bound(tier)),
+            rule: format!("GDSII library values from the C01 generator (family single; thorough also pairs: all 7 element kinds, every subset of optional fields, strans variants, properties, witness integers, strings over {{a, B, e-acute, euro, space, NUL}}, reals from the C15 slice), every choice sequence with <= {} value deviations, x {{Json, Yaml}} x {{to_string+from_str, save+open}}; for the default library of each focus additionally every string leaf of its serde form := each of 6 strings (mixed / lower / upper case, a blank inside, a line break, empty) where the field's type accepts it (the loaded library must hold exactly that string there, and copy losslessly). State = one library value.", self.bound(tier)),
             assumptions: vec![],
             excluded: vec![],
             technique: "deviation-bounded exhaustive enumeration of library values through the real serialisation helpers".into(),
@@ -935,6 +967,8 @@ impl CaseDriver for C18Gds {
     }
 }
 
+/// replacement strings for the string leaves of the generated LEF libraries
+const LEAF_STRINGS: [&str; 6] = ["aBc", "lower_case", "UPPER", "two words", "line\nbreak", ""];
 /// LEF library values from the shared C04 generator (17 foci: every field and enum variant of the data model).
 pub struct C18Lef;
 impl CaseDriver for C18Lef {
@@ -944,7 +978,7 @@ impl CaseDriver for C18Lef {
     }
     fn describe(&self, tier: Tier) -> Describe {
         Describe {
-            rule: format!("LEF library values from the C04 generator (17 foci covering every statement, field and enum variant of the data model), every choice sequence with <= {} value deviations, x {{Json, Yaml}} x {{to_string+from_str, save+open}}. State = one library value.", self.bound(tier)),
+            rule: format!("LEF library values from the C04 generator (17 foci covering every statement, field and enum variant of the data model), every choice sequence with <= {} value deviations, x {{Json, Yaml}} x {{to_string+from_str, save+open}}; for the default library of each focus additionally every string leaf of its serde form := each of 6 strings (mixed / lower / upper case, a blank inside, a line break, empty) where the field's type accepts it (the loaded library must hold exactly that string there, and copy losslessly). State = one library value.", self.bound(tier)),
             assumptions: vec![],
             excluded: vec![],
             technique: "deviation-bounded exhaustive enumeration of library values through the real serialisation helpers".into(),
@@ -961,6 +995,44 @@ impl CaseDriver for C18Lef {
         cx.tag("lefgen");
         cx.tag(&format!("lef-focus:{}", case.0));
         C18.check_lef(&case.1, key, &format!("generated LEF library (focus {})", case.0), cx);
+        if key.split('.').skip(1).all(|t| t == "0") {
+            // the default library of each focus: every string leaf of its serde form := each of a few strings
+            // (mixed case, lower case, blank inside, line break, empty); values the field's type refuses are skipped
+            let base = match serde_json::to_value(&case.1) {
+                Ok(v) => v,
+                Err(e) => return cx.machinery(format!("C18 lefgen: to_value failed: {e}")),
+            };
+            let mut leaves: Vec<String> = vec![];
+            fn walk(v: &Value, path: String, out: &mut Vec<String>) {
+                match v {
+                    Value::String(_) => out.push(path),
+                    Value::Array(a) => a.iter().enumerate().for_each(|(i, x)| walk(x, format!("{path}/{i}"), out)),
+                    Value::Object(o) => o.iter().for_each(|(k, x)| walk(x, format!("{path}/{}", k.replace('~', "~0").replace('/', "~1")), out)),
+                    _ => {}
+                }
+            }
+            walk(&base, String::new(), &mut leaves);
+            for (li, path) in leaves.iter().enumerate() {
+                for (si, st) in LEAF_STRINGS.iter().enumerate() {
+                    let mut v = base.clone();
+                    match v.pointer_mut(path) {
+                        Some(slot) => *slot = json!(st),
+                        None => continue,
+                    }
+                    let Ok(lib) = serde_json::from_value::<LefLibrary>(v) else { continue };
+                    cx.stats.executions += 1;
+                    cx.stats.evaluations += 1;
+                    cx.tag("lef-string-leaves");
+                    let _ = (li, si);
+                    let got = serde_json::to_value(&lib).ok().and_then(|v| v.pointer(path).cloned());
+                    if got != Some(json!(st)) {
+                        cx.fail(key, "lef-string-changed-on-load", None, || format!("focus {}: the JSON form with {st:?} at {path} loads to a library holding {got:?} there", case.0), || Value::Null);
+                        continue;
+                    }
+                    C18.check_lef(&lib, key, &format!("generated LEF library (focus {}) with {st:?} at {path}", case.0), cx);
+                }
+            }
+        }
     }
     fn render(&self, case: &Self::Case) -> Value {
         json!({"focus": case.0, "library": truncate(&format!("{:?}", case.1), 3000)})
